@@ -9,6 +9,7 @@
 #include "../world/mockdrv.h"
 
 #include <math.h>
+#include <stdarg.h>
 #include <stdio.h>
 #include <stdlib.h>
 #include <string.h>
@@ -619,6 +620,30 @@ delivered_frames(int camdev, int acq)
     return v;
 }
 
+// Storage-content failures.  Under C07 ("gap-free prefix ... a subsequent
+// configure/start/stop yields a complete, correct acquisition") and C09 ("a
+// later fault-free acquisition is complete and correct") the same judgement
+// is a clause of the property being checked, so it is reported under that
+// property's name.
+static void
+judge_fail(const char* id, const char* fmt, ...)
+  __attribute__((format(printf, 2, 3)));
+static void
+judge_fail(const char* id, const char* fmt, ...)
+{
+    char buf[2048];
+    va_list ap;
+    va_start(ap, fmt);
+    vsnprintf(buf, sizeof(buf), fmt, ap);
+    va_end(ap);
+    std::string oid = id;
+    const std::string& ap_ = active_property();
+    if ((ap_ == "C07" || ap_ == "C09") &&
+        (oid.rfind("C04.", 0) == 0 || oid.rfind("C10.", 0) == 0))
+        oid = ap_ + oid.substr(3);
+    oracle_fail(oid.c_str(), "%s", buf);
+}
+
 // storage content of one stream of one acquisition versus the camera
 static void
 judge_stream(const AcqRec& a, int s)
@@ -632,7 +657,7 @@ judge_stream(const AcqRec& a, int s)
         storage_started |= x == a.id;
     if (!storage_started) {
         if (a.start_ok && !c.faulty() && !a.disturbed)
-            oracle_fail("C04.stream_not_started",
+            judge_fail("C04.stream_not_started",
                         "acquisition %d stream %d: acquire_start succeeded but "
                         "the storage device never saw start()",
                         a.id, s);
@@ -650,19 +675,19 @@ judge_stream(const AcqRec& a, int s)
         size_t complete = G.size() / (size_t)k;
         if (clean) {
             if (G.size() != c.n)
-                oracle_fail("C10.camera_frame_count",
+                judge_fail("C10.camera_frame_count",
                             "acquisition %d stream %d: camera delivered %zu "
                             "frames for max_frame_count=%llu",
                             a.id, s, G.size(), (unsigned long long)c.n);
             if (F.size() < complete || F.size() > complete + 1)
-                oracle_fail("C10.window_count",
+                judge_fail("C10.window_count",
                             "acquisition %d stream %d: storage received %zu "
                             "averaged frames for %zu input frames with window "
                             "%d (expected %zu complete windows, at most one "
                             "extra)",
                             a.id, s, F.size(), G.size(), k, complete);
         } else if (F.size() > complete + 1) {
-            oracle_fail("C10.window_count",
+            judge_fail("C10.window_count",
                         "acquisition %d stream %d: storage received %zu "
                         "averaged frames but only %zu inputs were delivered",
                         a.id, s, F.size(), G.size());
@@ -674,12 +699,12 @@ judge_stream(const AcqRec& a, int s)
                      "acquisition %d stream %d stored frame %zu", a.id, s, i);
             if (f->shape.type != SampleType_f32 ||
                 !same_dims(f->shape, G[i * (size_t)k].shape))
-                oracle_fail("C10.wrong_shape",
+                judge_fail("C10.wrong_shape",
                             "%s: averaged frame is not f32 with the input's "
                             "dimensions",
                             where);
             if (f->frame_id != (uint64_t)i * (uint64_t)k)
-                oracle_fail("C10.wrong_frame_id",
+                judge_fail("C10.wrong_frame_id",
                             "%s: frame id %llu, expected %llu (id of the "
                             "window's first frame)",
                             where, (unsigned long long)f->frame_id,
@@ -692,7 +717,7 @@ judge_stream(const AcqRec& a, int s)
     // ---- plain: storage == camera, frame for frame
     if (F.size() > G.size()) {
         snprintf(id, sizeof(id), "%s.more_stored_than_delivered", P);
-        oracle_fail(id,
+        judge_fail(id,
                     "acquisition %d stream %d: storage received %zu frames "
                     "but the camera delivered only %zu",
                     a.id, s, F.size(), G.size());
@@ -701,12 +726,12 @@ judge_stream(const AcqRec& a, int s)
         const struct VideoFrame* f = F[i];
         const FrameRec& g = G[i];
         if (f->frame_id != i)
-            oracle_fail("C04.frame_id_sequence",
+            judge_fail("C04.frame_id_sequence",
                         "acquisition %d stream %d: %zu-th stored frame has "
                         "frame_id %llu (gap, repeat or reordering)",
                         a.id, s, i, (unsigned long long)f->frame_id);
         if (f->hardware_frame_id != g.hw || f->timestamps.hardware != g.ts)
-            oracle_fail("C04.wrong_frame",
+            judge_fail("C04.wrong_frame",
                         "acquisition %d stream %d: stored frame %zu carries "
                         "hardware id %llu / timestamp %llx but the camera's "
                         "%zu-th delivered frame was id %llu / %llx (lost, "
@@ -724,7 +749,7 @@ judge_stream(const AcqRec& a, int s)
         std::vector<uint8_t> want(g.nbytes);
         fill_pixels(want.data(), want.size(), g.camdev, g.acq, g.hw);
         if (memcmp(f->data, want.data(), want.size()) != 0)
-            oracle_fail("C04.pixels_altered",
+            judge_fail("C04.pixels_altered",
                         "acquisition %d stream %d: pixel bytes of stored frame "
                         "%zu (hardware id %llu) differ from what the camera "
                         "delivered",
@@ -732,12 +757,12 @@ judge_stream(const AcqRec& a, int s)
     }
     if (clean) {
         if (G.size() != c.n)
-            oracle_fail("C04.camera_frame_count",
+            judge_fail("C04.camera_frame_count",
                         "acquisition %d stream %d: camera delivered %zu frames "
                         "for max_frame_count=%llu",
                         a.id, s, G.size(), (unsigned long long)c.n);
         if (F.size() != c.n)
-            oracle_fail("C04.frames_missing_at_storage",
+            judge_fail("C04.frames_missing_at_storage",
                         "acquisition %d stream %d: storage received %zu of the "
                         "%llu frames the camera delivered before "
                         "acquire_stop returned (ring %s)",
@@ -1222,8 +1247,13 @@ struct RtHarness : Harness
                 }
             }
             ops.push_back("start");
-            if (fault_prof || (prog_prof && g.chance(0.3)) ||
-                (!abort_prof && g.chance(0.1)))
+            bool ends_by_itself = true;
+            for (int s = 0; s < nstreams; ++s)
+                ends_by_itself &= sc[s].n != INF_FRAMES && !sc[s].trig;
+            if (ends_by_itself &&
+                (fault_prof || (prog_prof && g.chance(0.3)) ||
+                 (!abort_prof && g.chance(0.1)) ||
+                 (abort_prof && g.chance(0.25))))
                 ops.push_back("await_idle max=2000000");
             if (prog_prof && g.chance(0.15))
                 ops.push_back("start"); // start while running
